@@ -204,6 +204,13 @@ func verifC06_recv() {
 	t := vNewTransport(vEncodeFrames(frames))
 	t.endMode = vEndBlock
 	t.step = vChoose("step", 2) * 7
+	// the peer may be gone by the time the echo is written (it sent its Close frame and hung up): the echo's write fails;
+	// the Close frame was received all the same and is reported the same way
+	peerGone := vChoose("peerGone", 2) == 1
+	if peerGone {
+		t.writeErrAt = 1
+		vReach("C06.recv.echo-write-fails")
+	}
 	c := vNewConn(t, client, nil, 16, 256)
 	for i := 0; i < nBefore; i++ {
 		_, _, err := c.Read(vBG)
@@ -219,9 +226,11 @@ func verifC06_recv() {
 		vAssert(false, "C06.recv.read-fails-with-close-error")
 	}
 	first, nClose, _, ok := vCloseFrames(t.out)
-	vAssert(vAnd(ok, nClose == 1), "C06.recv.one-echo")
-	if nClose >= 1 {
-		vAssert(vEqBytes(first, payload), "C06.recv.echo-same-code-and-reason")
+	if !peerGone {
+		vAssert(vAnd(ok, nClose == 1), "C06.recv.one-echo")
+		if nClose >= 1 {
+			vAssert(vEqBytes(first, payload), "C06.recv.echo-same-code-and-reason")
+		}
 	}
 	vAssert(vNot(vIsOpen(c)), "C06.recv.closed-for-good")
 	_, _, e1 := c.Reader(vBG)
